@@ -316,6 +316,16 @@ fn scenario(rng: &mut Rng) -> (Program, &'static str) {
 /// Programs whose cycles contain nothing to cut at: must be rejected.
 pub fn uncuttable(rng: &mut Rng) -> (String, &'static str) {
     let k = rng.range(1, 5);
+    if rng.chance(1, 2) {
+        // random declaration graphs with a cycle that avoids every schema declaration (possibly inside a
+        // component that also contains schema declarations)
+        for _ in 0..200 {
+            let (p, ok) = decl_graph(rng);
+            if !ok {
+                return (print_program(&p)[0].text.clone(), "declaration-graph");
+            }
+        }
+    }
     match rng.below(6) {
         0 => {
             let mut s = String::new();
@@ -349,6 +359,113 @@ pub fn uncuttable(rng: &mut Rng) -> (String, &'static str) {
             (s, "alias-through-functions")
         }
     }
+}
+
+/// Random declaration graphs over {object declaration, one-parameter function, alias}: the reference
+/// cycle predicate says whether every cycle passes through a schema declaration.
+/// Returns the program and whether the language accepts it.
+pub fn decl_graph(rng: &mut Rng) -> (Program, bool) {
+    let n = rng.range(2, 6);
+    // 0 = object, 1 = function, 2 = alias
+    let kinds: Vec<usize> = (0..n).map(|_| *rng.pick(&[0usize, 0, 1, 1, 2])).collect();
+    let mut edges: Vec<Vec<usize>> = vec![Vec::new(); n];
+    for (i, es) in edges.iter_mut().enumerate() {
+        let k = if kinds[i] == 2 { 1 } else { rng.range(0, 2) };
+        for _ in 0..k {
+            es.push(rng.below(n));
+        }
+        let _ = i;
+    }
+    // resolved kind of an alias: follow alias edges; a pure alias cycle is unresolved (2)
+    let resolve = |mut i: usize| -> usize {
+        for _ in 0..=n {
+            if kinds[i] != 2 {
+                return kinds[i];
+            }
+            i = edges[i][0];
+        }
+        2
+    };
+    let rk: Vec<usize> = (0..n).map(resolve).collect();
+    let name = |i: usize| format!("{}{}", ["d", "f", "a"][kinds[i]], i);
+    let reference = |j: usize| -> E {
+        let v = E::var(&name(j), Target::Decl(j));
+        if rk[j] == 1 {
+            E::App {
+                f: Box::new(v),
+                args: vec![E::Obj(vec![])],
+            }
+        } else {
+            v
+        }
+    };
+    let mut decls = Vec::new();
+    for i in 0..n {
+        let body_props: Vec<E> = edges[i].iter().enumerate().map(|(k, j)| prop(&format!("e{k}"), reference(*j))).collect();
+        let (params, rhs, ty) = match kinds[i] {
+            0 => (vec![], obj(body_props), Ty::Obj),
+            1 => {
+                let mut ps = vec![prop("p", E::var("x", Target::Param(i, 0)))];
+                ps.extend(body_props);
+                (vec!["x".to_owned()], obj(ps), Ty::Fun(vec![Ty::Obj], Box::new(Ty::Obj)))
+            }
+            _ => {
+                let j = edges[i][0];
+                let ty = match rk[i] {
+                    0 => Ty::Obj,
+                    1 => Ty::Fun(vec![Ty::Obj], Box::new(Ty::Obj)),
+                    _ => Ty::Text, // unresolved: not cuttable
+                };
+                (vec![], E::var(&name(j), Target::Decl(j)), ty)
+            }
+        };
+        decls.push(Decl {
+            module: 0,
+            name: name(i),
+            params,
+            anns: vec![],
+            rhs,
+            ty,
+        });
+    }
+    // accepted iff every cycle contains a cuttable declaration: remove cuttable nodes, the rest must be acyclic
+    let cuttable: Vec<bool> = (0..n).map(|i| kinds[i] != 1 && rk[i] == 0).collect();
+    let mut accepted = true;
+    for s in 0..n {
+        if cuttable[s] {
+            continue;
+        }
+        let mut stack: Vec<usize> = edges[s].clone();
+        let mut seen = vec![false; n];
+        while let Some(j) = stack.pop() {
+            if cuttable[j] {
+                continue;
+            }
+            if j == s {
+                accepted = false;
+                break;
+            }
+            if seen[j] {
+                continue;
+            }
+            seen[j] = true;
+            stack.extend(edges[j].iter().copied());
+        }
+    }
+    let mut stmts: Vec<Stmt> = (0..n).map(|i| Stmt::Let { id: i }).collect();
+    rng.shuffle(&mut stmts);
+    stmts.push(res("g", obj(vec![prop("root", reference(0))])));
+    (
+        Program {
+            modules: vec![Module {
+                file: "main.oal".into(),
+                stmts,
+            }],
+            decls,
+            n_recs: 0,
+        },
+        accepted,
+    )
 }
 
 fn count_implicit(doc: &Value) -> usize {
@@ -399,6 +516,25 @@ fn check_positive(src: &Sources, exp: &Value, max_implicit: usize, family: &str,
 }
 
 fn case(seed: u64, idx: u64, st: &mut Stats) -> Option<(Sources, Value, usize, &'static str)> {
+    if idx % 4 == 1 {
+        let mut rng = Rng::for_case(seed, "c09graph", idx);
+        // accepted graphs only here; rejected ones are produced by the negative family
+        for _ in 0..20 {
+            let (p, ok) = decl_graph(&mut rng);
+            if !ok {
+                continue;
+            }
+            return match expected(&p) {
+                Ok(Expected::Doc { doc, implicit_components, .. }) => Some((sources_of(&print_program(&p)), doc, implicit_components, "declaration-graph")),
+                other => {
+                    st.inc("scenario_reference_undefined");
+                    st.sample(|| json!({"scenario": "declaration-graph", "reference": format!("{other:?}"), "sources": sources_of(&print_program(&p)).to_json()}));
+                    None
+                }
+            };
+        }
+        return None;
+    }
     if idx % 4 == 3 {
         let mut rng = Rng::for_case(seed, "c09sc", idx);
         let (p, fam) = scenario(&mut rng);
